@@ -205,7 +205,29 @@ def check_bellman_ford(ctx: Ctx):
     ctx.ob("C11-O4", "R21 search discipline", f, "source distance initialised to 0, all others to infinity", len(init) == 1 and ast.unparse(init[0].value) in ("0.0", "0") and any(ast.unparse(n) == "dist = [float('inf')] * n_nodes" for n in own_nodes(f.node)), "", node=f.node)
 
 
+def check_floyd_edge_ingest(ctx: Ctx, oid: str):
+    """every input edge is entered into the distance table (self loops included: a negative one is a negative cycle,
+    which the Rust kernel reports) - the forward store is unconditional, the mirrored one depends on `directed` only"""
+    f = ctx.func("floyd_warshall", "floyd_warshall")
+    cfg = cfg_of(f.node)
+    stores = [x for x in own_nodes(f.node) if isinstance(x, ast.Assign) and isinstance(x.value, ast.Call) and ast.unparse(x.value.func) == "min" and ast.unparse(x.targets[0]).startswith("dist[")]
+    ctx.floor("edge stores in floyd_warshall", len(stores), 2)
+    from sa.guards import atoms as _atoms
+
+    for st_ in stores:
+        nn = cfg.node_of(st_)
+        lp = nn.loop
+        inside = {id(x) for x in ast.walk(lp.ast)} if lp is not None and lp.kind == "for" else set()
+        at = set()
+        for br in cfg.guards(nn):
+            if br.test.kind == "test" and id(br.test.ast) in inside:
+                at |= _atoms(br.test.ast, br.pol)
+        allowed = set() if ast.unparse(st_.targets[0]) == "dist[u][v]" else {"F:directed"}
+        ctx.ob(oid, "R12 NO-CARDINALITY-CUTOFF", f, f"`{ast.unparse(st_.targets[0])}` receives every input edge", at <= allowed, f"edges are skipped under {sorted(at - allowed)}: an edge left out of the table (a negative self loop is a negative cycle) changes the verdict", node=st_)
+
+
 def check_floyd(ctx: Ctx):
+    check_floyd_edge_ingest(ctx, "C11-O5")
     f = ctx.func("floyd_warshall", "floyd_warshall")
     cfg = cfg_of(f.node)
     gv = GuardView(cfg)
@@ -414,6 +436,11 @@ def _v_goal_bound_eq(tree):
     M.replace_expr(g, lambda e: isinstance(e, ast.Lambda) and M.src_has(e, "s == goal"), M.expr("goal.__eq__"))
 
 
+def _v_fw_skip_self_loops(tree):
+    g = M.find_func(tree, "floyd_warshall")
+    M.replace_stmt(g, lambda s: isinstance(s, ast.Assign) and M.src_is(s.targets[0], "dist[u][v]") and M.src_has(s.value, "min("), lambda s: M.stmts("if u == v:\n    continue") + [s])
+
+
 def _t_fw_swap_ij(tree):
     g = M.find_func(tree, "floyd_warshall")
     outer = [s for s in g.body if isinstance(s, ast.For) and M.src_is(s.target, "k")][0]
@@ -450,5 +477,6 @@ VARIANTS = [
     M.Variant("twin: reformat bfs", BS, _t_reformat, None),
     M.Variant("floyd_warshall relaxes only the cells above the diagonal when undirected (seed C11-C)", FW, _v_fw_upper_triangle, "C11-O5"),
     M.Variant("dijkstra's goal test is the bound method goal.__eq__ (seed C11-F)", DJ, _v_goal_bound_eq, "C11-G4"),
+    M.Variant("floyd_warshall skips self loops when reading the edges (seed C12-E)", FW, _v_fw_skip_self_loops, "C11-O5"),
     M.Variant("twin: floyd_warshall i/j loops swapped", FW, _t_fw_swap_ij, None),
 ]
